@@ -11,7 +11,8 @@ pub fn bases(f: Family, fr: &FamRefs, n: usize) -> Vec<Vec<u8>> {
 	let paths = domains::paths(&segs, n);
 	let auths = vec![None, Some(domains::b("")), Some(domains::b("h"))];
 	let _ = f;
-	domains::references(&[Some(domains::b("s"))], &auths, &paths, &[None, Some(domains::b("q"))], &[None])
+	// a base may carry a fragment: it never reaches the target (T.fragment = R.fragment)
+	domains::references(&[Some(domains::b("s"))], &auths, &paths, &[None, Some(domains::b("q"))], &[None, Some(domains::b("bf"))])
 		.into_iter()
 		.map(|(t, _)| t)
 		.filter(|t| fr.valid(Kind::Ri, t))
